@@ -25,6 +25,11 @@ Proof. reflexivity. Qed.
 (* save: get_conditions works on copies, the solver is left alone whether or not dill.dump
    then succeeds; the file holds the solver's objects as they are *)
 Lemma facts_save s ok : save facts s ok = (s, if ok then Some (mkfile facts s) else None).
+Proof. destruct s as [k n o th vh lo be co li np eq [a b c d u]]. destruct k; reflexivity. Qed.
+
+(* no call on the save path (save itself, the preview helpers, get_generator, get_networks, ...)
+   draws from the solver's generators or advances a global RNG, for any solver kind *)
+Lemma facts_no_effects : sf_effects facts = [].
 Proof. reflexivity. Qed.
 
 (* load of a file written by save: every modelled field comes back, lowest_loss included; the
@@ -32,10 +37,11 @@ Proof. reflexivity. Qed.
 Definition after_load (s : state) : state :=
   mkState (kind s) (nets s) (opt s) (train_hist s) (valid_hist s) (lowest s) (best s) (conds s) (loss_id s)
           (match kind s with KBundle => n_params s | _ => 0 end)
-          (match kind s with KBundle => seq 0 (n_params s) :: eqs s | _ => eqs s end).
+          (match kind s with KBundle => seq 0 (n_params s) :: eqs s | _ => eqs s end)
+          (mkEnv (drawn_train (env s)) (drawn_valid (env s)) 0 0 0).
 
 Lemma facts_load s : load facts (mkfile facts s) = Some (after_load s).
-Proof. destruct s as [k n o th vh lo be co li np eq]. destruct k; vm_compute; reflexivity. Qed.
+Proof. destruct s as [k n o th vh lo be co li np eq [a b c d u]]. destruct k; vm_compute; reflexivity. Qed.
 
 Lemma save_load s f : snd (save facts s true) = Some f -> load facts f = Some (after_load s).
 Proof. rewrite facts_save. cbn [snd]. intros H. inversion H. apply facts_load. Qed.
@@ -120,15 +126,36 @@ Proof. rewrite facts_save. reflexivity. Qed.
 Lemma save_idempotent s ok ok' : fst (save facts (fst (save facts s ok)) ok') = fst (save facts s ok).
 Proof. now rewrite !save_preserves. Qed.
 
-(* whatever else the source does, working on a copy is enough *)
-Lemma save_preserves_if_copy sf s ok : sf_aliased sf = false -> fst (save sf s ok) = s.
-Proof. intros H. unfold save. rewrite H. reflexivity. Qed.
+(* whatever else the source does: working on a copy of the condition dictionaries and making no
+   effectful call on the save path is enough *)
+Lemma save_preserves_if_copy sf s ok : sf_aliased sf = false -> sf_effects sf = [] -> fst (save sf s ok) = s.
+Proof.
+  intros H He. unfold save, save_env, count_effect, count_unknown. rewrite H, He.
+  destruct s as [k n o th vh lo be co li np eq [a b c d u]]. reflexivity.
+Qed.
 
 (* the descriptive copy that goes into diff_equation_details is still the rewritten dictionary *)
 Lemma described_conditions_idempotent c : touched (touched c) = touched c.
 Proof. apply touched_idem. Qed.
 
+(* the twin: a solver that saves (successfully or not) and then trains k epochs goes through exactly
+   the states of one that only trains, for ANY deterministic trainer that may depend on the whole
+   state -- the positions of the train / valid generators and the global RNG counters included *)
+Lemma save_then_fit_is_fit tr s ok k : fit_by tr (fst (save facts s ok)) k = fit_by tr s k.
+Proof. now rewrite save_preserves. Qed.
+
+Lemma save_keeps_environment s ok : env (fst (save facts s ok)) = env s.
+Proof. now rewrite save_preserves. Qed.
+
 (* ------------------------------------------------------------------ T2/T3: load after save *)
+(* the loaded generators continue where the saved ones were *)
+Lemma load_save_generators s f :
+  snd (save facts s true) = Some f ->
+  exists l, load facts f = Some l /\ drawn_train (env l) = drawn_train (env s) /\ drawn_valid (env l) = drawn_valid (env s).
+Proof.
+  intros H. rewrite (save_load s f H). eexists. split; [reflexivity|]. destruct s; split; reflexivity.
+Qed.
+
 Lemma load_save_history s f :
   snd (save facts s true) = Some f ->
   exists l, load facts f = Some l /\ kind l = kind s /\ train_hist l = train_hist s /\ valid_hist l = valid_hist s
@@ -292,7 +319,8 @@ Qed.
 
 (* ------------------------------------------------------------------ non-vacuity *)
 Definition demo_cond : cond := mkCond 3 [("t_0"%string, ANum 0 1); ("u_0"%string, ANum 1 2); ("u_0_prime"%string, ANone)].
-Definition demo : state := mkState K1D [11%Z] 5%Z [(3#1)%Q; (2#1)%Q] [(4#1)%Q; (1#1)%Q] (Some (1#1)%Q) (Some [11%Z]) [demo_cond] 0 0 [].
+Definition demo : state := mkState K1D [11%Z] 5%Z [(3#1)%Q; (2#1)%Q] [(4#1)%Q; (1#1)%Q] (Some (1#1)%Q) (Some [11%Z]) [demo_cond] 0 0 []
+                                   (mkEnv 2 2 0 0 0).
 
 Example demo_premises : tracks demo /\ exists f, snd (save facts demo true) = Some f.
 Proof.
@@ -305,14 +333,14 @@ Qed.
 (* a failed save, a save + load, one more (worse) epoch, save + load again: conditions untouched,
    lowest loss and best nets still those of the second epoch *)
 Example demo_roundtrip :
-  run_ops facts demo [OSave false; OSaveLoad; OFit [mkEpoch (1#2)%Q (3#1)%Q [12%Z] 6%Z]; OSaveLoad]
+  run_ops facts demo [OSave false; OSaveLoad; OFit [mkEpoch (1#2)%Q (3#1)%Q [12%Z] 6%Z (1, 1)]; OSaveLoad]
   = Some (mkState K1D [12%Z] 6%Z [(3#1)%Q; (2#1)%Q; (1#2)%Q] [(4#1)%Q; (1#1)%Q; (3#1)%Q] (Some (1#1)%Q) (Some [11%Z])
-            [demo_cond] 0 0 []).
+            [demo_cond] 0 0 [] (mkEnv 3 3 0 0 0)).
 Proof. vm_compute. reflexivity. Qed.
 
 (* a bundle solver routing bundle parameter 1 of 2 into its equation and using a custom loss *)
 Example demo_bundle :
-  let sb := mkState KBundle [7%Z] 5%Z [] [] None None [] 2 2 [[1]] in
+  let sb := mkState KBundle [7%Z] 5%Z [] [] None None [] 2 2 [[1]] (mkEnv 0 0 0 0 0) in
   trainable sb = true /\
   exists l, run_ops facts sb [OSaveLoad; OSaveLoad] = Some l /\ trainable l = true /\ loss_id l = 2
             /\ select (eqs l) [10; 20] = Some [20] /\ select (eqs sb) [10; 20] = Some [20].
